@@ -126,6 +126,101 @@ theorem query_answered (hA : cfg.os.killAtomic = true) (s : State) (h : Reach cf
     have ha : a.p = .awaiting v w q := by rcases h3 with h3 | h3; exact h3; exact absurd h3 hP
     exact progress_query cfg a h2 v w q ha
 
+/-- what one internal step does to the parent's view while it waits for a reply -/
+theorem istep_awaiting_served (s t : State) (hq : QInv s) (h : IStep cfg s t) (v : Bool) (w q : Nat)
+    (hs : s.p = .awaiting v w q) :
+    (t.p = .awaiting v w q ∧ t.served = s.served) ∨
+    (t.p = .returned v w ∧ (t.served = s.served ++ [(w, q)] ∨ (t.served = s.served ∧ t.ms[w]? = some .crashed))) := by
+  obtain ⟨h1, h2, h3, h4⟩ := hq.await v w q hs
+  cases h with
+  | recvReply v' w' q' j q'' r hp hr =>
+    rw [hs] at hp; simp at hp; obtain ⟨rfl, rfl, rfl⟩ := hp
+    rcases h4 with ⟨_, hr'⟩ | ⟨_, hr'⟩
+    · rw [hr'] at hr; simp at hr
+    · rw [hr'] at hr; simp at hr
+      obtain ⟨⟨rfl, rfl⟩, _⟩ := hr
+      exact Or.inr ⟨rfl, Or.inl rfl⟩
+  | recvEOF v' w' q' hp hr hd =>
+    rw [hs] at hp; simp at hp; obtain ⟨rfl, rfl, rfl⟩ := hp
+    refine Or.inr ⟨rfl, Or.inr ⟨rfl, ?_⟩⟩
+    rcases h1 with h1 | h1
+    · have := hd _ (List.mem_iff_getElem?.mpr ⟨w, h1⟩); simp [dead] at this
+    · exact h1
+  | _ => simp_all
+
+/-- **query_answered** (needs A1), exact form: on every schedule `get_model / get_value` returns, and what the parent
+    has received is exactly the winner's reply to the query that was asked -- unless the winner process has died in the
+    meantime (fault `OS.serveCrash`), in which case the call ends with an error (EOFError) and nothing is received. -/
+theorem query_answered_exact (hA : cfg.os.killAtomic = true) (s : State) (h : Reach cfg s) (v : Bool) (w q : Nat)
+    (hp : s.p = .awaiting v w q) :
+    Inev cfg (fun t => t.p = .returned v w ∧
+      (t.served = s.served ++ [(w, q)] ∨ (t.served = s.served ∧ t.ms[w]? = some .crashed))) s := by
+  have := inev_of_progress cfg
+    (fun t => Inv cfg t ∧ QInv t ∧ ((t.p = .awaiting v w q ∧ t.served = s.served) ∨
+      (t.p = .returned v w ∧ (t.served = s.served ++ [(w, q)] ∨ (t.served = s.served ∧ t.ms[w]? = some .crashed)))))
+    (fun t => t.p = .returned v w) ?_ ?_ s ⟨inv_reach cfg s h, qinv_reach cfg hA s h, Or.inl ⟨hp, rfl⟩⟩
+  · refine inev_mono cfg _ _ ?_ s this
+    intro t ⟨⟨_, _, h3⟩, hp'⟩
+    rcases h3 with ⟨h3, _⟩ | ⟨_, h3⟩
+    · rw [hp'] at h3; simp at h3
+    · exact ⟨hp', h3⟩
+  · intro a b ⟨h1, h2, h3⟩ hP hst
+    have ha : a.p = .awaiting v w q ∧ a.served = s.served := by
+      rcases h3 with h3 | h3; exact h3; exact absurd h3.1 hP
+    refine ⟨inv_istep cfg a b h1 hst, qinv_istep cfg hA a b h1 h2 hst, ?_⟩
+    have := istep_awaiting_served cfg a b h2 hst v w q ha.1
+    rw [ha.2] at this; exact this
+  · intro a ⟨_, h2, h3⟩ hP
+    have ha : a.p = .awaiting v w q := by rcases h3 with h3 | h3; exact h3.1; exact absurd h3.1 hP
+    exact progress_query cfg a h2 v w q ha
+
+/-! ### an explicit bound on the length of every schedule -/
+
+/-- `IPath n s t`: `t` is reached from `s` by exactly `n` internal steps -/
+inductive IPath : Nat → State → State → Prop
+  | nil (s : State) : IPath 0 s s
+  | cons (n : Nat) (s t u : State) : IStep cfg s t → IPath n t u → IPath (n + 1) s u
+
+theorem ipath_measure (n : Nat) (s t : State) (h : IPath cfg n s t) : n + imeasure t ≤ imeasure s := by
+  induction h with
+  | nil s => omega
+  | cons n s t u hst _ ih => have := imeasure_decreases cfg s t hst; omega
+
+theorem sum_map_replicate (f : MSt → Nat) (m : MSt) : ∀ n, ((List.replicate n m).map f).sum = n * f m
+  | 0 => by simp
+  | n + 1 => by
+    have := sum_map_replicate f m n
+    simp only [List.replicate_succ, List.map_cons, List.sum_cons, this, Nat.add_mul]; omega
+
+theorem imeasure_fresh (s : State) : imeasure (fresh cfg s) = 7 * cfg.n + 2 := by
+  have := sum_map_replicate mweight .solving cfg.n
+  simp only [imeasure, fresh, List.length_replicate, List.length_nil, pweight, this, mweight]; omega
+
+/-- **step bound.**  Whatever the schedule, a `solve()` call consists of at most `7·n + 2` internal steps
+    (member finishes, flushes, parent reads, terminations, ...). -/
+theorem solve_step_bound (s t : State) (n : Nat) (h : IPath cfg n (fresh cfg s) t) : n ≤ 7 * cfg.n + 2 := by
+  have := ipath_measure cfg n _ t h
+  rw [imeasure_fresh] at this; omega
+
+/-- **no API call blocks** (needs A1).  Every call of the caller -- `solve`, `get_model / get_value` after a verdict or
+    without one (immediate `ValueError`), `push / pop / add_assertion`, `exit` -- issued between two calls in a reachable
+    state, ends on every schedule. -/
+theorem api_call_returns (hA : cfg.os.killAtomic = true) (s t : State) (h : Reach cfg s) (hu : UStep cfg s t) :
+    Inev cfg (fun u => quiescent u.p = true) t := by
+  have ht : Reach cfg t := Reach.step s t h (Step.user s t hu)
+  cases hu with
+  | solveStart hq =>
+    refine inev_mono cfg _ _ ?_ _ (solve_terminates cfg _ ht rfl)
+    rintro u (⟨v, w, hp⟩ | ⟨e, hp⟩) <;> rw [hp] <;> rfl
+  | ask v w q hp =>
+    refine inev_mono cfg _ _ ?_ _ (query_answered_exact cfg hA _ ht v w q rfl)
+    rintro u ⟨hp', _⟩; rw [hp']; rfl
+  | edit hq => exact Inev.now _ hq
+  | askNoSolver hq =>
+    refine Inev.now _ ?_
+    rcases hq with hq | ⟨e, hq⟩ <;> rw [hq] <;> rfl
+  | close _ => exact Inev.now _ rfl
+
 /-- (needs A1) when `solve()` has returned, every member but the winner is dead; when it has raised, no member
     is alive: no orphan keeps running and nobody but the winner can ever read the control pipe. -/
 theorem losers_dead (hA : cfg.os.killAtomic = true) (s : State) (h : Reach cfg s) :
@@ -144,5 +239,26 @@ theorem model_satisfies (hA : cfg.os.killAtomic = true) (truth : Nat → Bool) (
   obtain ⟨hw, hb⟩ := verdict_in_answers cfg s h v w (Or.inl hp)
   obtain ⟨h1, h2⟩ := hmem s.cycle w v hw hb
   exact ⟨h1, fun hv => ⟨h2 hv, (serve_from_winner cfg hA s h v w).1 hp⟩⟩
+
+/-- What `model_satisfies` assumes about the *member solvers* (nothing here is about the portfolio, and nothing of it is
+    proved: the members are arbitrary pySMT solvers).  `truth c` is the satisfiability of the formula handed to the members
+    by `solve()` number `c` (assertions and assumptions), `modelOf c i` the model member `i` builds for it, and
+    `sat c m` means "`m` satisfies that formula". -/
+structure MembersSound (truth : Nat → Bool) {Model : Type} (modelOf : Nat → Nat → Model) (sat : Nat → Model → Prop) : Prop where
+  verdict : ∀ c i v, i < cfg.n → cfg.beh c i = .answer v → v = truth c
+  model : ∀ c i, i < cfg.n → cfg.beh c i = .answer true → sat c (modelOf c i)
+
+/-- **model_satisfies** (A1 + `MembersSound`): after a "sat" verdict every model / value the caller has received was computed
+    by one and the same member `w` -- i.e. it is (a part of) `modelOf c w` -- and that model satisfies the formula.  What
+    the portfolio contributes is "one answering member serves everything"; the satisfaction itself is the member's own
+    soundness, an assumption. -/
+theorem model_satisfies_sound (hA : cfg.os.killAtomic = true) (truth : Nat → Bool) {Model : Type}
+    (modelOf : Nat → Nat → Model) (sat : Nat → Model → Prop) (hm : MembersSound cfg truth modelOf sat)
+    (s : State) (h : Reach cfg s) (v : Bool) (w : Nat) (hp : s.p = .returned v w) :
+    v = truth s.cycle ∧ (v = true → sat s.cycle (modelOf s.cycle w) ∧ ∀ x ∈ s.served, x.1 = w) := by
+  obtain ⟨hw, hb⟩ := verdict_in_answers cfg s h v w (Or.inl hp)
+  refine ⟨hm.verdict _ w v hw hb, ?_⟩
+  intro hv; subst hv
+  exact ⟨hm.model _ w hw hb, (serve_from_winner cfg hA s h true w).1 hp⟩
 
 end PySMT.Portfolio
